@@ -288,6 +288,43 @@ def rw_trailing(fx, rnd):
     return b"".join(out)
 
 
+def rw_trailcomment(fx, rnd):
+    """comments written at the END of directive lines: a one-line comment, or a block comment that begins there and hides
+    the following lines (which look like directives) up to its closing marker"""
+    if fx.nl is None:
+        return None
+    d = fx.data
+    ends = []
+    for k, (t, b, e) in enumerate(fx.lex):
+        if t not in (KW, PARAM, OPEN, CLOSE):
+            continue
+        le = line_end(d, e if e >= b else b)
+        nxt = fx.lex[k + 1][1] if k + 1 < len(fx.lex) else len(d) + 1
+        if nxt < le or d[e + 1:le].strip(b" \t") != b"" or le >= len(d):
+            continue
+        if t == KW and d[b:e + 1] == b"Description":
+            continue            # what follows on the next lines is its text
+        ends.append((le, t))
+    ends = [x for x in ends if rnd.random() < 0.4]
+    if not ends:
+        return None
+    out, last = [], 0
+    n = 0
+    for p, t in ends:
+        out.append(d[last:p])
+        n += 1
+        kind = rnd.randrange(3)
+        if kind == 0:
+            out.append(b" # tc%d" % n)
+        elif kind == 1:
+            out.append(b"\t#tc %d #" % n)        # (not "##": at a body position a comment follows the schema library's syntax, F-29)
+        else:
+            out.append(b" ###" + fx.nl + b"GET /vfhidden%d" % n + fx.nl + b"  200 any" + fx.nl + b"###")
+        last = p
+    out.append(d[last:])
+    return b"".join(out)
+
+
 def rw_newlines(fx, rnd, to):
     if fx.nl != b"\n" or to == b"\n":
         return None
@@ -365,7 +402,7 @@ def rw_parens(fx, rnd):
 
 
 C05_FAMILIES = {
-    "comments": rw_comments, "blank": rw_blank, "indent": rw_indent, "trailing": rw_trailing, "parens": rw_parens,
+    "comments": rw_comments, "trailcomment": rw_trailcomment, "blank": rw_blank, "indent": rw_indent, "trailing": rw_trailing, "parens": rw_parens,
     "crlf": lambda fx, rnd: rw_newlines(fx, rnd, b"\r\n"), "cr": lambda fx, rnd: rw_newlines(fx, rnd, b"\r"),
 }
 
@@ -419,7 +456,7 @@ def c05(chk, tier):
         if not thorough:
             names = rnd.sample(names, 3)
         for nm in names:
-            for rep in range(2 if thorough and nm in ("comments", "blank", "indent", "parens", "trailing") else 1):
+            for rep in range(2 if thorough and nm in ("comments", "trailcomment", "blank", "indent", "parens", "trailing") else 1):
                 try:
                     data = C05_FAMILIES[nm](fx, random.Random(rnd.random()))
                 except Exception as ex:        # a rewriting that cannot be applied to this fixture
